@@ -2835,7 +2835,9 @@ class SSHConnection(SSHPacketHandler, asyncio.Protocol):
             name = '_process_' + map_handler_name(chantype) + '_open'
             handler = cast(Optional[_OpenHandler], getattr(self, name, None))
 
-            if callable(handler):
+            # A channel type of "channel" would find this packet
+            # handler itself rather than a channel open handler
+            if callable(handler) and name != '_process_channel_open':
                 chan, session = handler(packet)
                 chan.process_open(send_chan, send_window,
                                   send_pktsize, session)
